@@ -413,7 +413,10 @@ class Channel(ClosingContextManager):
         .. versionadded:: 1.2
         """
         # in many cases, the channel will not still be open here.
-        # that's fine.
+        # that's fine -- but once CLOSE has been sent (or the channel was
+        # torn down) nothing more may be sent on it (RFC 4254 section 5.3).
+        if self.closed:
+            return
         m = Message()
         m.add_byte(cMSG_CHANNEL_REQUEST)
         m.add_int(self.remote_chanid)
